@@ -167,6 +167,7 @@ def run_unit(repo_root, unit_dir, out_dir, rlimit=None, timeout=900, extra_args=
     res.functions = ex.functions
     res.types = ex.types
     res.rewrite_counts = ex.rewrite_counts
+    res.unmatched_wraps = list(getattr(ex, "unmatched_wraps", []))
     res.trusted, missing = scan_trusted(text)
     res.hints_removed = []
     if missing:
@@ -177,6 +178,8 @@ def run_unit(repo_root, unit_dir, out_dir, rlimit=None, timeout=900, extra_args=
     while True:
         _verify_text(res, text, linemap, gen, out_dir, rlimit, timeout, extra_args)
         if res.undecided:
+            if getattr(ex, "unmatched_wraps", None):
+                res.undecided.append("dialect adapters that no longer match the code (function verified unrewritten): %s" % ex.unmatched_wraps[:6])
             return res
         hint_fail = [f for f in res.failed if f["fn"] in extracted_names and f["kind"] in ("assert", "pre")
                      and f.get("origin") == "unit" and not f.get("tagged")]
